@@ -416,4 +416,77 @@ REGION_MUTANTS = [
 ]
 MUTANTS += REGION_MUTANTS
 
+WALKER_MUTANTS = [
+    dict(id="c01-count-first", props=["C01"], rule="W6", names="list count source",
+         edits=[(MARSHAL, "count = [v for v in values.values() if not is_list(type(v))][-1]", "count = [v for v in values.values() if not is_list(type(v))][0]")]),
+    dict(id="c01-container-late", props=["C01"], rule="W3", names="process_tpm2b",
+         edits=[(MARSHAL, """    none = yield MarshalEvent(path, tpm_type, ...)
+    assert none is None
+
+    values = {}
+    size_field, buffer_field = fields(tpm_type)
+    size_path = path / PathNode(size_field.name)
+    size_size, buffer_size_exp = yield from process(
+        size_field.type,
+        size_path,
+        size_constraints=size_constraints,
+        abort_on_error=abort_on_error,
+    )
+""", """    values = {}
+    size_field, buffer_field = fields(tpm_type)
+    size_path = path / PathNode(size_field.name)
+    size_size, buffer_size_exp = yield from process(
+        size_field.type,
+        size_path,
+        size_constraints=size_constraints,
+        abort_on_error=abort_on_error,
+    )
+    none = yield MarshalEvent(path, tpm_type, ...)
+    assert none is None
+""")]),
+    dict(id="c01-child-path-selector", props=["C01"], rule="W5", names="child path",
+         edits=[(MARSHAL, """            element_size, element_value = yield from process(
+                field.type,
+                path / PathNode(field.name),
+                selector=selector_value,""", """            element_size, element_value = yield from process(
+                field.type,
+                path / PathNode(selector_name),
+                selector=selector_value,""")]),
+    dict(id="c01-swap-dispatch", props=["C01"], rule="W1", names="dispatch of",
+         edits=[(MARSHAL, '    elif hasattr(tpm_type, "_int_size"):\n        # Primitives, TPMA', '    elif hasattr(tpm_type, "_valid_values") and not hasattr(tpm_type, "_selected_by") and False:\n        # Primitives, TPMA')]),
+    dict(id="c01-dispatch-tpm2b-prefix", props=["C01"], rule="W1",
+         edits=[(MARSHAL, 'elif tpm_type.__name__.startswith("TPM2B"):', 'elif tpm_type.__name__.startswith("TPM2B_"):'),
+                (STRUCT, "class TPM2B_DIGEST:", "class TPM2BDIGEST:"), (STRUCT, "TPM2B_DIGEST", "TPM2BDIGEST", 0)], skip_if_missing=True),
+    dict(id="c01-invert-sessions", props=["C01", "C11"], rule={"C01": "F", "C11": "A1"}, names="process_response",
+         edits=[(MARSHAL, """            field.name in ("parameterSize", "authorizationArea")
+            and values["tag"] != TPM_ST.SESSIONS""", """            field.name in ("parameterSize", "authorizationArea")
+            and values["tag"] == TPM_ST.SESSIONS""")]),
+    dict(id="c01-failed-response-keeps-handles", props=["C01"], rule="F", names="process_response",
+         edits=[(MARSHAL, 'in ("handles", "parameterSize", "parameters", "authorizationArea")\n            and "responseCode" in values', 'in ("parameterSize", "parameters", "authorizationArea")\n            and "responseCode" in values')]),
+    dict(id="c01-wrong-table", props=["C01"], rule="F", names="area type",
+         edits=[(MARSHAL, "            types_map = tpm_type._type_maps[field.name]\n            try:\n                field_type = types_map[command_code]", "            types_map = tpm_type._type_maps[\"parameters\"]\n            try:\n                field_type = types_map[command_code]")]),
+    dict(id="c01-encrypt-wrong-field", props=["C01"], rule="F", names="parameter_encryption",
+         edits=[(MARSHAL, '        if field.name == "authorizationArea":\n            parameter_encryption = (\n                is_parameter_encryption(authorizationArea=element_value) or None\n            )', '        if field.name == "handles":\n            parameter_encryption = (\n                is_parameter_encryption(authorizationArea=element_value) or None\n            )')]),
+    dict(id="c01-sorted-fields", props=["C01"], rule="W4", names="field loop",
+         edits=[(MARSHAL, "    element_size, element_value = None, None\n    for field in fields(tpm_type):", "    element_size, element_value = None, None\n    for field in sorted(fields(tpm_type), key=lambda f: f.name):")]),
+    dict(id="c01-store-wrong-key", props=["C01"], rule="W4",
+         edits=[(MARSHAL, "        values[field.name] = element_value\n        size += element_size\n    return size, tpm_type(**values)", "        values[field.name.lower()] = element_value\n        size += element_size\n    return size, tpm_type(**values)")]),
+    dict(id="c01-array-index", props=["C01"], rule="W5", names="element index",
+         edits=[(MARSHAL, "        elements.append(element_value)\n        index += 1\n", "        elements.append(element_value)\n        index += 2\n")]),
+    dict(id="c01-union-fallback-first", props=["C01"], rule="W7", names="selection chain",
+         edits=[(MARSHAL, "    if selector in selection:\n        selectee_name = selection[selector]\n    elif None in selection:\n        # use fallback option\n        selectee_name = selection[None]",
+                 "    if None in selection:\n        # use fallback option\n        selectee_name = selection[None]\n    elif selector in selection:\n        selectee_name = selection[selector]")]),
+    dict(id="c01-tpm2b-count-literal", props=["C01"], rule="W6", names="TPM2B payload count",
+         edits=[(MARSHAL, "            path / PathNode(buffer_field.name),\n            count=buffer_size_exp,", "            path / PathNode(buffer_field.name),\n            count=size_size,")]),
+    dict(id="c01-event-type", props=["C01"], rule="W2", names="MarshalEvent",
+         edits=[(MARSHAL, "    event = MarshalEvent(path, tpm_type, value_typed)", "    event = MarshalEvent(path, type(value_typed._value), value_typed)")]),
+    dict(id="c01-encrypted-guard", props=["C01"], rule="F", names="encrypted",
+         edits=[(MARSHAL, "    if parameter_encryption and issubclass(tpm_type, TPMS_PARAMS):", "    if parameter_encryption is not None and issubclass(tpm_type, TPMS_PARAMS):")]),
+    dict(id="c01-list-arm-count", props=["C01"], rule="W6",
+         edits=[(MARSHAL, "            count=tpm_type._list_size[field.name],", "            count=tpm_type._list_size.get(field.name, 0),")]),
+    dict(id="c01-benign-helper", props=["C01", "C03", "C04", "C07"], benign=True,
+         edits=[(MARSHAL, "    size = tpm_type._int_size\n    data = []\n", "    size = tpm_type._int_size\n    data = list()\n")]),
+]
+MUTANTS += WALKER_MUTANTS
+
 MUTANTS = [m for m in MUTANTS if not m.get("skip_if_missing")]
